@@ -119,6 +119,13 @@ func (s *Sym) MakeFn(name string, args ...*RF) *RF {
 		} else if c != nil && c.Name == "cmp!=" {
 			return s.MakeFn("ite", s.MakeFn("cmp==", c.Args...), args[2], args[1])
 		}
+	case "shl":
+		// x << c for a constant c is x * 2^c (same wrap-around semantics)
+		if len(args) == 2 {
+			if c, ok := args[1].IsConst(); ok && c.IsInt() && c.Sign() >= 0 && c.Num().IsInt64() && c.Num().Int64() <= 62 && s.Integral(args[0]) {
+				return args[0].Mul(s.Const(new(big.Rat).SetInt(new(big.Int).Lsh(big.NewInt(1), uint(c.Num().Int64())))))
+			}
+		}
 	case "not":
 		return s.Not(args[0])
 	case "land", "lor":
